@@ -107,7 +107,14 @@ def run_case(chk, case):
         tb = traceback.extract_tb(e.__traceback__)
         inrepo = [t for t in tb if "/pyttb/" in t.filename]
         where = f"{os.path.basename(inrepo[-1].filename)}:{inrepo[-1].name}" if inrepo else "harness"
-        return dict(sig=f"crash:{type(e).__name__}@{where}", msg=(str(e) or repr(e))[:2000])
+        extra = ""
+        if hasattr(chk, "classify"):
+            try:
+                extra = ":" + chk.classify(case)
+            except Exception:
+                extra = ""
+        return dict(sig=f"crash:{type(e).__name__}@{where}{extra}",
+                    msg=((str(e) or repr(e)) + " | case=" + json.dumps(jsonable(case), default=str))[:2000])
 
 
 def run_check(chk, tier, seed, budget_s=None, max_fail=25):
